@@ -4,15 +4,20 @@ C12 — gentest: the generated test fails when the command behaves differently.
 Carried by theorems: each stream and each reference file has its own test (C11.plan_*, distinct names, so a change
 is reported by the test for that stream or file and by no stand-in); each such test is a check_strings comparison
 (C04) against the reference, which fails on any difference that no generated exclusion excuses and on a different
-number of lines. Which lines the generator excuses, that a deleted file or a changed exit status is reported,
-and binary comparison are runtime: decided by the oracle, which changes the command after generation and re-runs
-the generated script.
+number of lines; for a repeatable command the generated exclusions are ignore-substrings that are machine-specific
+strings found in the text or dates within a day of the generation run, and nothing else (Model/GentestExcl.lean, the
+date detectors' answers being inputs), so a changed line that holds none of them makes the test fail. That a deleted
+file or a changed exit status is reported, and binary comparison, are runtime: decided by the oracle, which changes
+the command after generation and re-runs the generated script.
 -/
 import TddaVerif.Model.Gentest
 import TddaVerif.Model.CheckStrings
 import TddaVerif.Props.C04
 import TddaVerif.Props.C04Spec
 import TddaVerif.Props.C11
+import TddaVerif.Model.GentestExcl
+import TddaVerif.Lemmas.GentestExcl
+import TddaVerif.Generated.Gentest
 
 namespace TddaVerif.Props.C12
 open TddaVerif.Gentest TddaVerif.CheckStrings TddaVerif.Props.C04
@@ -39,5 +44,50 @@ theorem every_output_has_its_own_test (alnum : Char → Bool) (so se : Bool) (fi
     ((plan alnum so se files).filter (fun t => t.kind == some .string)).map (·.subject)
       = (if so then ["stdout".toList] else []) ++ (if se then ["stderr".toList] else []) :=
   ⟨C11.plan_names_nodup alnum so se files, C11.plan_files alnum so se files, (C11.plan_streams alnum so se files).1⟩
+
+/-! ### which lines the generator excuses (repeatable command) -/
+
+/-- a single run generates no exclusion at all -/
+theorem single_run_no_exclusions (env : Env) (lines : List LineInfo) :
+    exclusions env 1 lines = { substrings := [], datesToRex := [] } :=
+  ExclLemmas.single_run_no_exclusions env lines
+
+/-- **where an exclusion comes from**: it is the host name, the IP address, the working directory, the user name or
+    TMPDIR - and then some line contains it - or a date / datetime the detectors found in a line that holds a date
+    within the window of the generation run. Nothing else is ever excluded for a repeatable command. -/
+theorem substring_origin (env : Env) (n : Nat) (lines : List LineInfo) (s : TddaVerif.Py.Line)
+    (h : s ∈ (exclusions env n lines).substrings ∨ s ∈ (exclusions env n lines).datesToRex) :
+    (∃ l ∈ lines, TddaVerif.Py.contains l.text s = true ∧
+        (s = env.host ∨ some s = env.ip ∨ s = env.cwd ∨ s = env.user ∨ some s = env.tmpdir)) ∨
+    (∃ l ∈ lines, l.plausibleDate = true ∧ (s ∈ l.dates ∨ s ∈ l.dts)) :=
+  ExclLemmas.substring_origin env n lines s h
+
+/-- a date outside the window of the run excludes nothing, however date- or time-like the text is -/
+theorem no_plausible_date_no_date_exclusion (env : Env) (n : Nat) (lines : List LineInfo)
+    (hnone : ∀ l ∈ lines, l.plausibleDate = false) :
+    (exclusions env n lines).datesToRex = [] ∧
+    ∀ s ∈ (exclusions env n lines).substrings,
+      s = env.host ∨ some s = env.ip ∨ s = env.cwd ∨ s = env.user ∨ some s = env.tmpdir :=
+  ExclLemmas.no_plausible_date_no_date_exclusion env n lines hnone
+
+/-- **a changed line that holds none of the generated ignore-substrings makes the generated test fail** (the generated
+    assertion is a check_strings comparison whose only option is the list of ignore-substrings) -/
+theorem changed_unexcluded_line_fails (subs : List TddaVerif.Py.Line) (pat : PatFn) (a e : List TddaVerif.Py.Line) (i : Nat)
+    (hlen : a.length = e.length) (hi : i < e.length)
+    (hlast : e.getLast? ≠ some [] ∧ a.getLast? ≠ some [])
+    (hne : a.getD i [] ≠ e.getD i [])
+    (hfree : ∀ s ∈ subs, TddaVerif.Py.contains (e.getD i []) s = false) :
+    (checkStrings { ignoreSubstrings := subs } pat a e).failures = 1 :=
+  ExclLemmas.changed_unexcluded_line_fails subs pat a e i hlen hi hlast hne hfree
+
+/-- **Tie**: the constants and the shape of the rule are the ones in the source today (Generated/Gentest.lean is
+    rewritten from tdda/referencetest/gentest.py on every run): the limit on listed dates and the comparison it is used
+    in, the run count below which nothing is excluded, the machine-specific kinds in the order the model appends them
+    (homedir only warns) -/
+theorem tie_exclusion_rule :
+    Generated.Gentest.maxSpecificDateVariants = maxDateVariants ∧
+    Generated.Gentest.minRunsForExclusions = 2 ∧
+    Generated.Gentest.tokenKinds = ["host".toList, "ip".toList, "cwd".toList, "user".toList, "homedir".toList, "tmpdir".toList] ∧
+    Generated.Gentest.warningOnlyKinds = ["homedir".toList] := by decide
 
 end TddaVerif.Props.C12
